@@ -434,9 +434,19 @@ fn rand_line_prog(rng: &mut Rng) -> Vec<u8> {
     let mut p = Vec::new();
     let nseq = 1 + rng.below(2);
     for s in 0..nseq {
-        // DW_LNE_set_address
-        p.extend_from_slice(&[0, 9, 2]);
-        p.extend_from_slice(&(0x2000u64 * (s + 1)).to_le_bytes());
+        // how the sequence gets its start address: its own DW_LNE_set_address (usual), a tombstone
+        // (all-ones: what linkers write for discarded code), or none at all (address register 0)
+        match rng.below(8) {
+            0 => {
+                p.extend_from_slice(&[0, 9, 2]);
+                p.extend_from_slice(&u64::MAX.to_le_bytes());
+            }
+            1 => {}
+            _ => {
+                p.extend_from_slice(&[0, 9, 2]);
+                p.extend_from_slice(&(0x2000u64 * (s + 1)).to_le_bytes());
+            }
+        }
         for _ in 0..rng.below(10) {
             match rng.below(14) {
                 0 => p.push(1),                                         // copy
@@ -487,7 +497,13 @@ fn rand_line_prog(rng: &mut Rng) -> Vec<u8> {
             }
         }
         p.push(1);
-        p.extend_from_slice(&[2, 4]);
+        if rng.chance(1, 6) {
+            // the end address given by DW_LNE_set_address directly before DW_LNE_end_sequence
+            p.extend_from_slice(&[0, 9, 2]);
+            p.extend_from_slice(&(0x2000u64 * (s + 1) + 0x1800).to_le_bytes());
+        } else {
+            p.extend_from_slice(&[2, 4]);
+        }
         p.extend_from_slice(&[0, 1, 1]); // end_sequence
     }
     p
@@ -602,6 +618,67 @@ pub fn gen(ctx: &Ctx, emit: &mut dyn FnMut(String)) {
             if let Some(secs) = rich_dwarf(&mut rng, version, format, asz, e) {
                 emit(format!("c12-dwarf {} {}", if e == RunTimeEndian::Little { "le" } else { "be" }, secs_line(&secs)));
             }
+        }
+    }
+    // exhaustive structural enumeration of line programs: every sequence is (start kind) x (body
+    // kind) x (end kind); all programs of 1 and 2 sequences (quick) / up to 3 (thorough)
+    {
+        let kinds: Vec<(u8, u8, u8)> = (0..3u8).flat_map(|a| (0..5u8).flat_map(move |b| (0..2u8).map(move |c| (a, b, c)))).collect();
+        let seq_bytes = |k: (u8, u8, u8), idx: u64| -> Vec<u8> {
+            let mut p = Vec::new();
+            let base = 0x3000u64 * (idx + 1);
+            let set = |p: &mut Vec<u8>, a: u64| {
+                p.extend_from_slice(&[0, 9, 2]);
+                p.extend_from_slice(&a.to_le_bytes());
+            };
+            match k.0 {
+                0 => set(&mut p, base),
+                1 => set(&mut p, u64::MAX),
+                _ => {}
+            }
+            match k.1 {
+                0 => {}
+                1 => p.extend_from_slice(&[1]),
+                2 => p.extend_from_slice(&[0x21, 2, 3, 0x4b]),
+                3 => {
+                    p.extend_from_slice(&[0x21, 2, 3]);
+                    set(&mut p, base + 0x800);
+                    p.extend_from_slice(&[0x21, 2, 5, 0x4b]);
+                }
+                _ => {
+                    p.extend_from_slice(&[0x21]);
+                    set(&mut p, u64::MAX);
+                    p.extend_from_slice(&[0x21, 2, 5]);
+                    set(&mut p, base + 0x900);
+                    p.extend_from_slice(&[0x4b]);
+                }
+            }
+            match k.2 {
+                0 => p.extend_from_slice(&[2, 4]),
+                _ => set(&mut p, base + 0x1000),
+            }
+            p.extend_from_slice(&[0, 1, 1]);
+            p
+        };
+        let mut progs: Vec<Vec<(u8, u8, u8)>> = Vec::new();
+        for &a in &kinds {
+            progs.push(vec![a]);
+            for &b in &kinds {
+                progs.push(vec![a, b]);
+                if ctx.tier == Tier::Thorough {
+                    for &c in &kinds {
+                        progs.push(vec![a, b, c]);
+                    }
+                }
+            }
+        }
+        for pr in progs {
+            let mut bytes = Vec::new();
+            for (i, k) in pr.iter().enumerate() {
+                bytes.extend(seq_bytes(*k, i as u64));
+            }
+            let secs = assembled_line_unit(&mut rng, &bytes);
+            emit(format!("c12-dwarf le {}", secs_line(&secs)));
         }
     }
     for _ in 0..ctx.n(300, 10_000) {
